@@ -165,13 +165,29 @@ impl Ctx {
 
     pub fn nontrivial(&mut self, identity: &[u8]) { self.distinct.insert(fnv(identity)); }
 
-    pub fn sample(&mut self, v: Value) {
+    /// strings of more than 20 000 bytes in a record are cut to their first 2 000 characters (the case
+    /// index regenerates the full text; U-SCALE programs are megabytes long)
+    fn shorten(v: &mut Value) {
+        match v {
+            Value::String(s) if s.len() > 20_000 => {
+                let head: String = s.chars().take(2_000).collect();
+                *s = format!("{} ...[cut: {} bytes in all; re-run the case index for the full text]", head, s.len());
+            }
+            Value::Array(a) => for x in a { Self::shorten(x) },
+            Value::Object(m) => for (_, x) in m.iter_mut() { Self::shorten(x) },
+            _ => {}
+        }
+    }
+
+    pub fn sample(&mut self, mut v: Value) {
+        Self::shorten(&mut v);
         if self.samples.len() < 4 { self.samples.push(v) } else { self.last_sample = Some(v) }
     }
 
     pub fn want_sample(&self) -> bool { self.samples.len() < 4 || self.index % 4096 < self.nshards }
 
-    pub fn violation(&mut self, key: &str, what: &str, detail: Value) {
+    pub fn violation(&mut self, key: &str, what: &str, mut detail: Value) {
+        Self::shorten(&mut detail);
         self.violation_count += 1;
         self.count(&format!("violation:{}", key), 1);
         let same_key = *self.counters.get(&format!("violation:{}", key)).unwrap_or(&0);
